@@ -8,7 +8,9 @@ search      spec-oracle:  `arabic cls` — the crate's joining pass on represent
                           <= 6 x contexts of length 0/1 in thorough, a stride of it in quick; random long words
             known-chars:  joining class of well-known characters (independent mini-source for the table)
             metamorphic:  context-as-text and T-insertion on the crate alone, random real characters
-            shape-e2e:    through shape() on a generated positional-forms font (needs tools/fontbuild.py)
+            shape-e2e:    through shape() on generated positional-forms fonts, one per script that owns joining letters
+                          in the crate's table (scripts, letters, OpenType tags, directions all derived from the crate's
+                          data; needs tools/fontbuild.py)
 """
 import itertools, os
 import vlib
@@ -438,107 +440,205 @@ def run(ctx):
     spec_oracle(ctx, shim, model, "spec-oracle-random", random_long_lines(ch, ctx.rng("long"), ctx.budget(30000, 500000)),
                 "random words of length <= 40 with contexts of 0..7 classes (API keeps 5), random representatives")
     metamorphic(ctx, shim, ch, ctx.rng("meta"), ctx.budget(10000, 150000))
-    shape_e2e(ctx, shim, model, ch, ctx.rng("e2e"), ctx.budget(20000, 300000), ctx.budget(3, 5))
+    shape_e2e(ctx, shim, model, ch, ctx.rng("e2e"), ctx.budget(20000, 300000), ctx.budget(26000, 400000))
 
 
-# Alphabets of the generated positional-forms font: (ISO script, direction, FVS copy?, letters per class).
-# Chosen so that shape() itself does not disturb the text: no canonical (de)compositions among the letters, marks
-# do not compose with them and have equal combining classes within an alphabet or ccc 0 (no mark reordering);
-# default ignorables (ZWJ, ZWNJ, FVS) are kept by PRESERVE_DEFAULT_IGNORABLES.  Arabic and Syriac run the Arabic
-# shaper, the others reach the same setup_masks_inner through the Universal Shaping Engine.
-E2E_ALPHABETS = [
-    ("Arab", "r", False, {"U": [0x0041, 0x0621, 0x200C, 0x0030], "L": [0xA872, 0x10ACD],
-                          "R": [0x0627, 0x062F, 0x0648, 0x0717, 0x0718], "D": [0x0628, 0x0633, 0x064A, 0x0712, 0x071D, 0x07CA],
-                          "C": [0x0640, 0x200D], "T": [0x064B, 0x0651, 0x070F, 0x0730], "A": [0x0710],
-                          "S": [0x0715, 0x0716, 0x072A, 0x072F]}),
-    ("Mong", "l", True, {"U": [0x0020, 0x1800], "D": [0x1820, 0x1828, 0x182D, 0x1887], "C": [0x180A],
-                         "T": [0x180B, 0x180C, 0x180D, 0x180F]}),
-    ("Nkoo", "r", False, {"U": [0x0020, 0x07C0], "D": [0x07CA, 0x07DB, 0x07E0], "C": [0x07FA], "T": [0x07EB, 0x07F3]}),
-    ("Mand", "r", False, {"U": [0x0020, 0x085E], "R": [0x0840, 0x0846], "D": [0x0841, 0x0842], "T": [0x0859]}),
-]
-E2E_SYRC = ("Syrc", "r", False, E2E_ALPHABETS[0][3])
+# ------------------------------------------------------------------------------------------------
+# shape-e2e: every script that owns joining letters, derived from the crate's data
+#
+# Nothing below names a script.  The letters come from the crate's joining table (`arabic ranges` / `arabic jt`), their
+# script from the Unicode Script property (`arabic script`: the unicode-script crate by name, next to the crate's own
+# char -> Script mapping), the OpenType tags of a script from the crate's tag mapping (`scripttags`), its horizontal
+# direction from `lcprop s`, and the shaper it is sent to (`shaper`, for the evidence and for the one documented
+# exemption: vertical text of a script handled by the Arabic shaper is not shaped as Arabic).
+
+CLASS_OF_RES = {0: "U", 1: "L", 2: "R", 3: "D", 4: "A", 5: "S", 7: "T"}
+NEUTRAL_ISO = ("Zyyy", "Zinh", "Zzzz")
+# characters of no particular script, offered to every alphabet under the class the crate resolves them to:
+# SPACE, ZWNJ (U), ZWJ, TATWEEL (C), LRM, CGJ (T).  Default ignorables survive through PRESERVE_DEFAULT_IGNORABLES.
+COMMON_EXTRAS = [0x0020, 0x200C, 0x200D, 0x0640, 0x200E, 0x034F]
+FEATS = ["isol", "fina", "fin2", "fin3", "medi", "med2", "init"]       # OpenType names; glyph block j+1 = feature j
 
 
-def e2e_font():
-    letters = []
-    for _, _, _, al in E2E_ALPHABETS:
-        for kk in CLASSES:
-            for c in al.get(kk, []):
-                if c not in letters:
-                    letters.append(c)
-    k = len(letters)
-    feats = ["isol", "fina", "fin2", "fin3", "medi", "med2", "init"]      # OpenType names; glyph block j+1 = feature j
-    recipe = {
+def tag_str(t):
+    return "".join(chr((t >> s) & 255) for s in (24, 16, 8, 0))
+
+
+class ScriptData:
+    pass
+
+
+def joining_scripts(ctx, shim, ch, r, cap):
+    """-> list of ScriptData, one per script that owns a letter of joining type L/R/D/Alaph/Dalath-Rish"""
+    win = set()
+    for s, e, _ in ch.ranges:
+        win.update(range(s & ~0x7F, (e | 0x7F) + 1))
+    cands = sorted(c for c in win | set(COMMON_EXTRAS) if not 0xD800 <= c <= 0xDFFF)
+    ch.learn(shim, cands)
+    toks = " ".join(q(shim, ["arabic script " + " ".join(map(str, cands[i:i + 400])) for i in range(0, len(cands), 400)])).split()
+    iso, own = {}, {}
+    for c, t in zip(cands, toks):
+        a, b = t.split(":")
+        iso[c], own[c] = tag_str(int(a)), tag_str(int(b))
+    names = []
+    for c in cands:
+        if ch.res[c] in (1, 2, 3, 4, 5) and iso[c] not in NEUTRAL_ISO and iso[c] not in names:
+            names.append(iso[c])
+    out = []
+    for name in names:
+        sd = ScriptData()
+        sd.iso = name
+        sd.tag = sum(ord(x) << s for x, s in zip(name, (24, 16, 8, 0)))
+        o = q(shim, [f"scripttags {sd.tag}", f"lcprop s {name}"], nproc=1)
+        sd.ot = [int(x) for x in o[0].split(",")] if o[0] not in ("-", "") else []
+        d = o[1].split()
+        sd.dir = {"1": "l", "2": "r"}.get(d[1] if len(d) > 1 else "", None)
+        if not sd.ot or sd.dir is None:
+            ctx.violation(f"script {name} owns joining letters but the crate gives it no OpenType tag / horizontal direction "
+                          f"(scripttags -> {o[0]}, lcprop s -> {o[1]})",
+                          {"stage": "search", "stream": "shape-e2e", "script": name, "request": f"scripttags {sd.tag}"})
+            continue
+        sh = q(shim, [f"shaper {sd.tag} {0 if sd.dir == 'l' else 1} {sd.ot[0]}", f"shaper {sd.tag} 2 {sd.ot[0]}"], nproc=1)
+        sd.shaper, sd.shaper_v = sh[0].strip(), sh[1].strip()
+        # alphabet: the script's own characters of the window by resolved class, sampled to `cap` per class
+        # (first and last always), then the common extras
+        al = {}
+        for c in cands:
+            if iso[c] == name:
+                al.setdefault(CLASS_OF_RES[ch.res[c]], []).append(c)
+        sd.n_letters = sum(len(v) for k, v in al.items() if k in "LRDAS")
+        for k in list(al):
+            v = al[k]
+            lim = cap if k in "LRDAS" else max(4, cap // 4)
+            if len(v) > lim:
+                al[k] = sorted(set([v[0], v[-1]] + r.sample(v[1:-1], lim - 2)))
+        # the letter classes L, R, D the script lacks are borrowed from the other scripts (two letters each): the joining
+        # analysis works on joining types whatever the script of a character (an explicit script shapes the whole text).
+        # Not the Syriac groups: fin2/fin3/med2 are features of the Syriac rules, the Universal shaper does not enable them.
+        sd.foreign = set()
+        for k in "LRD":
+            if k not in al:
+                other = [c for c in cands if CLASS_OF_RES[ch.res[c]] == k and iso[c] not in NEUTRAL_ISO]
+                if other:
+                    al[k] = sorted(set(r.sample(other, 2)))
+                    sd.foreign.update(al[k])
+        cknown = set(KNOWN["C"])
+        for c in COMMON_EXTRAS:
+            k = CLASS_OF_RES[ch.res[c]]
+            if k == "D" and c in cknown:
+                k = "C"
+            al.setdefault(k, []).append(c)
+        # the normalizer must leave the text alone: drop transparent marks that compose with a character of the alphabet
+        allc = [c for v in al.values() for c in v]
+        marks = al.get("T", [])
+        if marks:
+            pairs = [(a_, m) for m in marks for a_ in allc]
+            comp = q(shim, [f"norm compose {a_} {m}" for a_, m in pairs])
+            dropped = {m for (a_, m), o_ in zip(pairs, comp) if o_.strip() != "-"}
+            al["T"] = [m for m in marks if m not in dropped]
+            if not al["T"]:
+                del al["T"]
+        sd.alpha = al
+        sd.letters = [c for k in CLASSES for c in al.get(k, [])]
+        sd.own_ok = all(own[c] == name for c in sd.letters if iso[c] == name and ch.res[c] in (1, 2, 3, 4, 5))
+        sd.strong = {c for c in sd.letters if iso[c] == name}
+        out.append(sd)
+    return out
+
+
+def e2e_font(sd):
+    k = len(sd.letters)
+    tags = [tag_str(t) for t in sd.ot]
+    return {
         "num_glyphs": 1 + 8 * k,
-        "cmap": {c: 1 + i for i, c in enumerate(letters)},
+        "cmap": {c: 1 + i for i, c in enumerate(sd.letters)},
         "advances": [600] * (1 + 8 * k),
         "gsub": {
-            "scripts": [{"tag": t, "default": {"required": None, "features": list(range(7))}, "langs": []}
-                        for t in ("DFLT", "arab", "syrc", "mong", "nko ", "mand")],
-            "features": [{"tag": f, "lookups": [j]} for j, f in enumerate(feats)],
+            "scripts": [{"tag": t, "default": {"required": None, "features": list(range(7))}, "langs": []} for t in tags],
+            "features": [{"tag": f, "lookups": [j]} for j, f in enumerate(FEATS)],
             "lookups": [{"type": 1, "flag": 0,
                          "subtables": [{"format": 1, "coverage": {"ranges": [(1, k)]}, "delta": k * (j + 1)}]}
                         for j in range(7)],
         },
     }
-    return letters, recipe
 
 
-def shape_e2e(ctx, shim, model, ch, r, n, maxlen_exh):
-    """End to end through the public shape(): a font whose 7 positional features map every letter to a distinct
-    glyph per form; the form read off the output glyph must be the spec's form (Lean spec through `arabic cls`;
-    for Mongolian additionally: a free variation selector shows the form of the item before it)."""
+def shape_e2e(ctx, shim, model, ch, r, n, per_script):
+    """End to end through the public shape(), for EVERY script that owns joining letters in the crate's table: per
+    script a font whose GSUB has the script's OpenType tag(s) and 7 positional features mapping every letter to a
+    distinct glyph per form; the form read off the output glyph must be the spec's form (Lean spec through
+    `arabic cls`; for Mongolian additionally: a free variation selector shows the form of the item before it)."""
     try:
         import fontbuild
     except ImportError:
         ctx.cov.setdefault("not_run", []).append("shape-e2e: tools/fontbuild.py not available")
         return
-    letters, recipe = e2e_font()
-    k = len(letters)
-    ch.learn(shim, letters)
-    for _, _, _, al in E2E_ALPHABETS:
-        for kk, cs in al.items():
-            if any(ch.res[c] != JT_NUM[kk] for c in cs):
-                ctx.cov.setdefault("not_run", []).append("shape-e2e: a font letter is not in its class for the crate")
-                return  # (reported by known-chars when the character is listed there)
-    fontline = "font c11e2e " + fontbuild.hexfont(recipe)
-    cases = []   # (alphabet, pre, word, post) as class words
-    alphabets = E2E_ALPHABETS + [E2E_SYRC]
-    for ab in alphabets:
-        cl = [x for x in CLASSES if x in ab[3]]
+    scripts = joining_scripts(ctx, shim, ch, r, ctx.budget(24, 400))
+    cases = []   # (script data, dir, explicit script?, pre, word, post) as class words
+    info = {}
+    for sd in scripts:
+        cl = [x for x in CLASSES if x in sd.alpha]
         ctxs = [""] + cl
-        mx = maxlen_exh if ab[0] in ("Arab", "Mong") else maxlen_exh - 1
+        nc = len(cl)
+        mx = 1
+        while (nc + 1) ** 2 * sum(nc ** i for i in range(1, mx + 2)) <= per_script and mx < 6:
+            mx += 1
         for pre in ctxs:
             for post in ctxs:
                 for ln in range(1, mx + 1):
                     for w in itertools.product(cl, repeat=ln):
-                        cases.append((ab, pre, "".join(w), post))
-    for _ in range(n):
-        ab = r.choice(alphabets)
-        wts = [x for x in "UULLRRRDDDDCTTTAAS" if x in ab[3]]
-        cases.append((ab, rand_word(r, r.choice([0, 1, 2, 5]), wts),
+                        cases.append((sd, sd.dir, True, pre, "".join(w), post))
+        info[sd.iso] = {"ot": [tag_str(t) for t in sd.ot], "dir": sd.dir, "shaper": sd.shaper, "classes": "".join(cl),
+                        "letters_in_font": len(sd.letters), "joining_letters_of_script": sd.n_letters,
+                        "borrowed": ["%04X" % c for c in sorted(sd.foreign)],
+                        "exhaustive_len": mx, "guessable": sd.own_ok}
+    for _ in range(n if scripts else 0):
+        sd = r.choice(scripts)
+        wts = [x for x in "UULLRRRDDDDCTTTAAS" if x in sd.alpha]
+        # vertical text: every script but those of the Arabic shaper (ot_shaper.rs: "Arabic shaping is applicable only
+        # to horizontal layout; for vertical text, just use the generic shaper instead")
+        d = "t" if sd.shaper != "arabic" and r.chance(1, 5) else sd.dir
+        cases.append((sd, d, not r.chance(1, 4), rand_word(r, r.choice([0, 1, 2, 5]), wts),
                       rand_word(r, r.choice([5, 8, 12, 30]), wts) or "D", rand_word(r, r.choice([0, 1, 2, 5]), wts)))
+    fontlines = {sd.iso: f"font c11e2e{sd.iso} " + fontbuild.hexfont(e2e_font(sd)) for sd in scripts}
     lines, oracle, meta = [], [], []
-    for ab, pre, w, post in cases:
-        pick = lambda word: [r.choice(ab[3][x]) for x in word]
+    for sd, d, explicit, pre, w, post in cases:
+        pick = lambda word: [r.choice(sd.alpha[x]) for x in word]
         p, t, q_ = pick(pre), pick(w), pick(post)
+        if not explicit:
+            first = next((c for c in t if c in sd.strong or c in sd.foreign), None)
+            if first not in sd.strong:
+                explicit = True       # the first character with a script of its own must be one of this script
         hx = lambda xs: ",".join("%x" % c for c in xs) or "-"
         text = ",".join("%x:%d" % (c, i) for i, c in enumerate(t))
         # flags 4 | 16 = PRESERVE_DEFAULT_IGNORABLES | DO_NOT_INSERT_DOTTED_CIRCLE, cluster level 1 = monotone characters
-        lines.append(f"shape c11e2e {ab[1]} {ab[0]} - 20 1 - {hx(p)} {hx(q_)} {text}")
+        lines.append(f"shape c11e2e{sd.iso} {d} {sd.iso if explicit else '-'} - 20 1 - {hx(p)} {hx(q_)} {text}")
         oracle.append(f"arabic cls 0,0,0,0,0,0,0,0 {pre or '-'} {w} {post or '-'}")
-        meta.append((ab, t))
-    outs = vlib.run_groups(shim, [[fontline] + lines])[0]
-    if outs[0] != "ok":
-        ctx.violation(f"generated positional-forms font rejected: {outs[0]}", {"stage": "search", "stream": "shape-e2e",
-                      "font_line": fontline[:200]}, found_input=False)
-        return
+        meta.append((sd, d, explicit, t, not any(c in sd.foreign for c in p + t + q_)))
+    groups, gidx = [], []
+    by = {}
+    for i, (sd, _, _, _, _) in enumerate(meta):
+        by.setdefault(sd.iso, []).append(i)
+    for name, idx in by.items():
+        for j in range(0, len(idx), 4000):
+            part = idx[j:j + 4000]
+            groups.append([fontlines[name]] + [lines[i] for i in part])
+            gidx.append(part)
+    outs = [None] * len(lines)
+    for g, part, o in zip(groups, gidx, vlib.run_groups(shim, groups)):
+        if o[0] != "ok":
+            ctx.violation(f"generated positional-forms font rejected: {o[0]}", {"stage": "search", "stream": "shape-e2e",
+                          "font_line": g[0][:200]}, found_input=False)
+            return
+        for i, x in zip(part, o[1:]):
+            outs[i] = x
     spec = q(model, oracle)
     bad = 0
-    dist, per = {}, {}
-    for ln, orc, (ab, t), o, sp in zip(lines, oracle, meta, outs[1:], spec):
+    dist, per, nbad, modes, shown = {}, {}, {}, {}, {}
+    for ln, orc, (sd, d, explicit, t, pure), o, sp in zip(lines, oracle, meta, outs, spec):
+        k = len(sd.letters)
         want = [int(x) for x in sp.split()[1:]]
-        if ab[2]:
+        if sd.iso == "Mong":
             for i in range(1, len(want)):
                 if t[i] in FVS:
                     want[i] = want[i - 1]
@@ -546,26 +646,41 @@ def shape_e2e(ctx, shim, model, ch, r, n, maxlen_exh):
         f = o.split()
         if f and f[0] == "ok" and int(f[1]) == len(t):
             gids = [int(x.split(":")[0]) for x in f[2:]]
-            if ab[1] == "r":
+            if d == "r":
                 gids = gids[::-1]                                            # rtl output is in visual order
             got = [((g - 1) // k - 1) % 8 if g >= 1 else -1 for g in gids]   # block 0 = unsubstituted -> 7 (none)
             got_letters = sorted(1 + (g - 1) % k for g in gids)
             for a in got:
                 dist[a] = dist.get(a, 0) + 1
-        per[ab[0]] = per.get(ab[0], 0) + 1
-        ok = got == want and got_letters == sorted(1 + letters.index(c) for c in t)
+        per[sd.iso] = per.get(sd.iso, 0) + 1
+        mode = ("vertical" if d == "t" else "horizontal") + ("" if explicit else "+guessed-script")
+        modes[mode] = modes.get(mode, 0) + 1
+        ok = got == want and got_letters == sorted(1 + sd.letters.index(c) for c in t)
         if not ok:
             bad += 1
-            if bad <= 3:
-                ctx.violation(f"shape() on the positional-forms font ({ab[0]}): forms {got} differ from the spec {want} for {orc}",
-                              {"stage": "search", "stream": "shape-e2e", "font_line": fontline, "request": ln,
+            nbad[sd.iso] = nbad.get(sd.iso, 0) + 1
+            # per script: the first failing input, and the first one without borrowed letters where a letter that should
+            # take a positional form gets another form (at most 3 scripts are spelled out, the rest is counted)
+            on_letter = pure and got is not None and any(w_ != 7 and g_ != w_ for g_, w_ in zip(got, want))
+            kind = "letter" if on_letter else "any"
+            seen = shown.setdefault(sd.iso, set())
+            if (len(shown) <= 3 or seen) and kind not in seen and not (kind == "any" and "letter" in seen):
+                seen.add(kind)
+                ctx.violation(f"shape() on the positional-forms font of script {sd.iso} (OpenType {'/'.join(tag_str(x) for x in sd.ot)}, "
+                              f"{mode}): forms {got} differ from the spec {want} for {orc}",
+                              {"stage": "search", "stream": "shape-e2e", "script": sd.iso, "mode": mode,
+                               "font_line": fontlines[sd.iso], "request": ln,
                                "oracle": orc, "expected": want, "observed": o})
-    ctx.note_search("shape-e2e", len(lines), len(lines), mismatches=bad, per_script=per,
+    ctx.note_search("shape-e2e", len(lines), len(lines), mismatches=bad, mismatches_per_script=nbad, per_script=per,
+                    modes=modes, scripts=info,
                     forms={ACTION_NAMES[a] if 0 <= a < 8 else str(a): v for a, v in sorted(dist.items())},
-                    rule=f"public shape() on a generated font with {k} letters x 7 single-substitution features, scripts "
-                         f"Arab/Syrc (Arabic shaper) and Mong/Nkoo/Mand (USE); all class words of length <= {maxlen_exh} "
-                         f"(Arab, Mong; <= {maxlen_exh - 1} for the others) x contexts of length 0/1 plus random words <= 30 with "
-                         "contexts <= 5; form decoded from the glyph id == Lean spec (+ FVS copy for Mongolian)")
+                    rule="public shape(), for every script that owns a joining letter of the crate's table (scripts by the "
+                         "Unicode Script property, letters sampled per class from the table, plus SPACE/ZWNJ/ZWJ/TATWEEL/LRM/CGJ), on a "
+                         "generated font per script: GSUB script = the script's OpenType tag(s) by the crate's own mapping, 7 "
+                         "single-substitution positional features; all class words up to the per-script length x contexts of length "
+                         "0/1 (explicit script, native horizontal direction) plus random words <= 30 with contexts <= 5 (1/4 with "
+                         "guessed script, 1/5 vertical for the scripts not handled by the Arabic shaper); form decoded from the glyph "
+                         "id == Lean spec (+ FVS copy for Mongolian)")
 
 
 def replay(ctx, rp):
